@@ -19,6 +19,7 @@ EXPLANATION = (
     "call sites of _add_edge_helper by def-use (START/END of which event each node argument is, through the two wrappers and the last_node map) against the "
     "per-type table of the property, the sync-source selection rule, validation dominating the longest-path call, and the pandas API contract on the construction "
     "path. NOT decided: acyclicity / forward-in-time for every causally consistent trace (depends on trace contents)."
+    " Later additions: effect rules incl. shallow-copy aliasing of the Trace and parameterless memoised option readers; time-column dtype; inward rounding (shared with C01); call graph restricted to the analysed rank."
 )
 CP = "hta.analyzers.critical_path_analysis"
 
